@@ -581,7 +581,9 @@ func (e *Enc) heapKeyFor(pointee types.Type) (key, cellSort string) {
 
 func (e *Enc) memKeyFor(elem types.Type) (key, elemSort string) {
 	s := e.sortOf(elem)
-	key = "M_" + sanitize(s)
+	// slice memory is partitioned by Go element type: a []plugin.Plugin can
+	// never share a backing array with a []ndp.Option
+	key = "M_" + sanitize(shortTypeName(types.Unalias(elem)))
 	e.heapSort[key] = fmt.Sprintf("(Array Int (Array Int %s))", s)
 	return key, s
 }
